@@ -12,6 +12,7 @@ From Coq Require Import ZArith NArith List Bool String.
 From Falcon.lib Require Import PyStr.
 From Falcon.gen Require Import ConstsC04.
 From Falcon.C03 Require Model.
+From Falcon.C12 Require Json.
 Import ListNotations.
 Open Scope N_scope.
 
@@ -80,11 +81,15 @@ Record link := { l_text : str; l_href : str; l_rel : str }.
 
 Definition hpairs := list (str * str).
 
+(* HTTPError.code: documented as an int; whatever the application passes is kept as is and
+   json.dumps / str() are applied to it - ints and strs are modelled *)
+Inductive ecode := CodeInt (z : Z) | CodeStr (s : str).
+
 Record herr := {                   (* falcon.HTTPError instance attributes *)
   e_status : N;                    (* status_code *)
   e_title : str;
   e_desc : option str;
-  e_code : option Z;
+  e_code : option ecode;
   e_link : option link;
   e_headers : option hpairs
 }.
@@ -100,7 +105,7 @@ Inductive payload := PError (e : herr) | PStatus (s : hstat) | PNone.
 Record exc := { x_mro : list cls; x_payload : payload }.
 
 (* HTTPError.to_dict *)
-Record errdict := { d_title : str; d_desc : option str; d_code : option Z; d_link : option link }.
+Record errdict := { d_title : str; d_desc : option str; d_code : option ecode; d_link : option link }.
 
 Definition to_dict (e : herr) : errdict :=
   {| d_title := e_title e; d_desc := e_desc e; d_code := e_code e; d_link := e_link e |}.
@@ -300,6 +305,57 @@ Definition handle_exception (v : env) (r : resp) (x : exc) : houtcome * option h
     end
   end.
 
+(* ---- the error body is ENCODED while the error response is composed: to_json() ends with
+   str.encode() (strict UTF-8: UnicodeEncodeError on a lone surrogate); _to_xml() goes through
+   ElementTree's writer whose error handler is xmlcharrefreplace (never raises).  An exception
+   raised there is raised inside / after the error handler and leaves _handle_exception. *)
+Definition str_scalarb (s : str) : bool := forallb Falcon.C12.Json.scalar s.
+
+Definition link_scalarb (l : link) : bool :=
+  str_scalarb (l_text l) && str_scalarb (l_href l) && str_scalarb (l_rel l).
+
+Definition dict_scalarb (d : errdict) : bool :=
+  str_scalarb (d_title d)
+  && match d_desc d with Some x => str_scalarb x | None => true end
+  && match d_code d with Some (CodeStr x) => str_scalarb x | _ => true end
+  && match d_link d with Some l => link_scalarb l | None => true end.
+
+(* does composing the response for e raise UnicodeEncodeError? only the JSON branch can *)
+Definition encode_ok (n : ncfg) (e : herr) : bool :=
+  let preferred :=
+    match n_preferred n with
+    | Some p => Some p
+    | None =>
+      let accept := lower (n_accept n) in
+      if contains accept s_plus_json then Some MEDIA_JSON
+      else if contains accept s_plus_xml then Some MEDIA_XML
+      else None
+    end in
+  match preferred with
+  | Some p => if str_eqb p MEDIA_JSON then dict_scalarb (to_dict e) else true
+  | None => true
+  end.
+
+(* the HTTPError (if any) whose response _handle_exception composes for x *)
+Definition composed_error (v : env) (x : exc) : option herr :=
+  match find_error_handler (v_reg v) (x_mro x) with
+  | Some HPython => Some internal_error
+  | Some HHTTPError => match x_payload x with PError e => Some e | _ => None end
+  | Some (HCustom n) => match h_end (script_of v n) with HERaiseError e => Some e | _ => None end
+  | _ => None
+  end.
+
+(* _handle_exception including that failure *)
+Definition handle_exception_enc (v : env) (r : resp) (x : exc) : houtcome * option hid * resp :=
+  match handle_exception v r x with
+  | (Handled, h, r') =>
+    match composed_error v x with
+    | Some e => if encode_ok (v_ncfg v) e then (Handled, h, r') else (HandlerRaised, h, r')
+    | None => (Handled, h, r')
+    end
+  | other => other
+  end.
+
 (* ---- rendering (Response.render_body precedence; C05 covers framing) *)
 Inductive body :=
 | BNone
@@ -372,7 +428,7 @@ Definition finish (fixed : bool) (v : env) (mf : mfail) (r : resp)
   | inl b => (Response (r_status r) (r_headers r) b, [])
   | inr x =>
     if negb (catchable x) then (Escaped, []) else
-    match handle_exception v r x with
+    match handle_exception_enc v r x with
     | (Handled, h, r') =>
       if fixed then
         match render mf r' with
@@ -393,7 +449,7 @@ Definition request (fixed : bool) (v : env) (mf : mfail)
   | None => finish fixed v mf r
   | Some x =>
     if negb (catchable x) then (Escaped, []) else
-    match handle_exception v r x with
+    match handle_exception_enc v r x with
     | (Handled, h, r') =>
       let '(res, hs) := finish fixed v mf r' in (res, h :: hs)
     | (_, h, _) => (Escaped, [h])
